@@ -43,9 +43,9 @@ var props = []propCfg{
 	},
 	{
 		ID: "C09", World: "jwtclock", Pkg: "worlds/jwtclock", Test: "TestJWTClock", Level: "exploration",
-		Variants: []variant{{Name: "plain", Quick: 500, Thorough: 30000, Workers: 16, QuickS: 1500, ThoroughS: 4 * 3600}},
-		Rule:     "TODO",
-		Assume:   []string{"TODO"},
+		Variants: []variant{{Name: "plain", Quick: 2500, Thorough: 30000, Workers: 16, QuickS: 1500, ThoroughS: 4 * 3600}},
+		Rule:     "one run = one keyset (MAC or signature class; 1..5 keys over 1..3 materials of HS/ES/RS/PS/ML-DSA, each key with its own algorithm and kid strategy, some disabled, verifier side direct or through a JWK set), 1..4 validators (typ/iss/aud expected|none|ignored, AllowMissingExpiration, ExpectIssuedInThePast, clock skew from {0, 1ns, 1s, 10min, ...}), 1..8 tokens issued inside a testing/synctest bubble with a drawn issuer clock error, each with one drawn manipulation of known effect (or none), network delays and duplicate deliveries. Every token is verified by the real code at its deliveries and at exp+skew / nbf-skew / iat-skew +- {0, 1ns, 1s}, once through time.Now (the bubble clock) and once through FixedNow, and compared with refimpl/jwtref. Non-trivial = a manipulation fired, or a time rule was evaluated within 1ns of its boundary, or the keyset went through JWK; distinct = signature (class, transport, key-family set, kid-rule set, first token's manipulation, which time claims were hit at a boundary, outcomes seen).",
+		Assume:   []string{"the synctest bubble clock starts at 2000-01-01T00:00:00Z and advances only by time.Sleep (asserted every run)", "a bit-flipped, truncated, extended, all-zero or foreign-key signature is not valid (negligible forgery probability); ECDSA (r, n-s) malleability is not generated", "iss/aud/typ follow the expected-vs-present matrix of the property; a missing iat fails ExpectIssuedInThePast", "registered claims of wrong type or outside [0, 253402300799] invalidate the token", "the standard-library signers are an independent oracle for HS/ES/RS/PS; ML-DSA re-signing uses tink's raw ML-DSA primitive", "tokens whose meaning the reference model is not certain about (non-string kid/typ, fractional times, duplicate JSON members) are not generated"},
 	},
 	{
 		ID: "C14", World: "atrest", Pkg: "worlds/atrest", Test: "TestAtRest", Level: "exploration",
